@@ -9,7 +9,7 @@ CHECKS = {
     "C01": ("property-based testing (proptest tapes) against a validity predicate over the provider tables",
             "exploration",
             "Generated universes/problems/runtimes; every Ok(S) is checked against an independent validity predicate (requirements, constraints, constrains, exclusions, Unknown, locks, one-per-package) in release and debug builds. Exploration is the right level: the property quantifies over all providers and the oracle is exact on each generated case.",
-            "Trusts the table-driven provider and the validity predicate (vcore/src/reference.rs); random universes are bounded (<=12 packages, <=6 candidates, ids < ~500); stage `huge` adds one package of up to 5000 candidates.",
+            "Trusts the table-driven provider and the validity predicate (vcore/src/reference.rs); random universes are bounded (<=12 packages, <=6 candidates, ids < ~500); stage `huge` adds one package of up to 5000 candidates. A quarter of the universes answer filter_candidates in reverse order and the union iterator varies its size_hint (TableProvider::vary_answers, all checks that solve); one generated lock in eight names a solvable the provider no longer lists.",
             "DESIGN.md 3/C01"),
     "C02": ("differential / metamorphic property-based testing against an exhaustive reference resolver",
             "exploration",
@@ -24,7 +24,7 @@ CHECKS = {
     "C04": ("property-based testing / fuzzing for panics, step budgets, deadlocks and output bounds in debug and release builds",
             "exploration",
             "Feature-interaction universes (hints x locks x exclusions x soft requirements x self references x cycles) are solved and rendered in builds with and without debug assertions; any panic, budget overrun, deadlock or oversized rendering is a violation.",
-            "Termination is decided by poll/step budgets, output bounds and structural deadlock detection; a wall-clock watchdog (60 s per case, typical case < 1 ms) is only a backstop and reports exit 2. Stages run in child processes: a stack overflow or abort of the tested code is attributed to the case and reported (`deep-chain`, release and debug: dependency paths of up to 16384 packages on a 2 MiB stack, soft lists of up to 70000 entries).",
+            "Termination is decided by poll/step budgets, output bounds and structural deadlock detection; a wall-clock watchdog (60 s per case, typical case < 1 ms) is only a backstop and reports exit 2. Stages run in child processes: a stack overflow or abort of the tested code is attributed to the case and reported (`deep-chain`, release and debug: dependency paths of up to 16384 packages on a 2 MiB stack, soft lists of up to 70000 entries). Locks on solvables the provider no longer lists (Package::lock_gone) are part of the feature mix.",
             "DESIGN.md 3/C04"),
     "C05": ("property-based testing against a support-closure oracle",
             "exploration",
@@ -34,7 +34,7 @@ CHECKS = {
     "C06": ("metamorphic property-based testing: identical observation across repeated in-process solves and freshly started processes",
             "exploration",
             "Each generated case is solved 4 times in-process (fresh ahash keys per solver) and again in 2-3 fresh processes; solution order / conflict message / graphviz bytes must be identical.",
-            "Hash states and address layouts are sampled by repetition and re-execution, not enumerated. The configuration is part of the case: generated activity parameters, and in half of the cases the observation is a history (a sub-problem solved first on the same solver).",
+            "Hash states and address layouts are sampled by repetition and re-execution, not enumerated. The configuration is part of the case: generated activity parameters, and in half of the cases the observation is a history (a sub-problem solved first on the same solver). A third of the cases use a sort_candidates that leaves ties; stage `huge` has packages of hundreds of candidates (> 32 matches per version set).",
             "DESIGN.md 3/C06"),
     "C07": ("property-based testing on universes that are conflict-free by construction, against a first-choice closure oracle",
             "exploration",
@@ -49,7 +49,7 @@ CHECKS = {
     "C09": ("model-based property testing over the provider call history (causality, at-most-once, exactness)",
             "exploration",
             "The provider call log of one or two successive solves on one solver is checked as a history against a causality model; on conflict-free universes the fetched sets must be exactly the solution / the mentioned names.",
-            "No-hint providers only (as the property states); the call log is recorded by the harness's provider.",
+            "No-hint providers only (as the property states); the call log is recorded by the harness's provider. Half of the re-entrant cases use a sort_candidates that abandons a nested cache request other callers may be waiting for.",
             "DESIGN.md 3/C09"),
     "C10": ("schedule exploration: harness-owned executor, sampled and exhaustive completion orders, reference verdict",
             "exploration",
@@ -59,12 +59,12 @@ CHECKS = {
     "C11": ("schedule exploration with a quiescence invariant evaluated by the harness executor",
             "exploration",
             "At every quiescent point of every generated schedule, every get_candidates request implied by delivered dependency information must have been issued.",
-            "Quiescence = root future pending and not self-woken; all provider calls are gated in this check.",
+            "Quiescence = root future pending and not self-woken; all provider calls are gated in this check. Stage `huge`: hinted packages with thousands of candidates (> 1 024 dependency requests pending in one encoder round).",
             "DESIGN.md 3/C11"),
     "C12": ("fault injection: cancellation enumerated over every poll index (transient and sticky) of generated cases",
             "fault_enumeration",
             "For each generated case a dry run counts the cancellation polls; cancellation is then injected at every poll index (quick: up to 48 per case) in two modes; result, carried value and absence of later provider calls are checked.",
-            "The poll sequence of a case is deterministic for a fixed schedule (checked: a poll index that is never reached is reported). Stage `wide-root` (thousands of root requirements, 64 sampled indices) reaches polls inside long propagation rounds.",
+            "The poll sequence of a case is deterministic for a fixed schedule (checked: a poll index that is never reached is reported). Stage `wide-root` (thousands of root requirements, 64 sampled indices) reaches polls inside long propagation rounds. Unions of 31-42 and of 901-1 100 version sets are generated in the main stage.",
             "DESIGN.md 3/C12"),
     "C13": ("stateful (history) property testing of solver reuse against the reference resolver",
             "exploration",
@@ -104,7 +104,7 @@ CHECKS = {
     "C20": ("stateful property testing of SolverCache against the provider tables, incl. re-entrant queries from sort_candidates",
             "exploration",
             "Generated histories of direct cache calls are checked for partition, sort/rotation, idempotence (provider call log unchanged) and availability after every step; full solves with a probing sort_candidates check availability answers at call time.",
-            "Synchronous provider for the direct histories; unions and abandoned requests (a caller dropped while suspended in the provider, with and without a second caller waiting) go through the harness scheduler; concurrent duplicates of one key are covered by C10.",
+            "Synchronous provider for the direct histories; unions and abandoned requests (a caller dropped while suspended in the provider, with and without a second caller waiting) go through the harness scheduler; concurrent duplicates of one key are covered by C10. The cache's providers vary the form of their answers like the solving checks do (reverse filter order, size_hint of the union iterator).",
             "DESIGN.md 3/C20"),
 }
 
